@@ -392,3 +392,22 @@ func verifC04LexIn(pre string, L int, alphabet string) {
 	}
 	verifCheck(verifImplies(specified, all), "accepted-text-or-its-tokens-differ-from-lexical-grammar")
 }
+
+// HarnessC04If: an `if:` condition written without ${{ }}: the text "true" +
+// L arbitrary bytes (no quote characters) is accepted without a diagnostic only
+// if it contains no `}` — a `}}` ends lexing early and a single `}` is no token.
+func HarnessC04If(L int) {
+	tail := verifSymString("tail", L)
+	hasBrace := false
+	for i := 0; i < L; i++ {
+		verifAssumeNote(verifAnd(tail[i] != '\'', verifAnd(tail[i] != 0, tail[i] < 0x80)), "C04 if: no quote characters, ASCII")
+		hasBrace = verifOr(hasBrace, tail[i] == '}')
+	}
+	rule := NewRuleExpression(NewLocalActionsCache(nil, nil), NewLocalReusableWorkflowCache(nil, "/", nil))
+	rule.checkIfCondition(&String{Value: "true" + tail, Pos: &Pos{1, 1}}, "jobs.<job_id>.if")
+	verifReach("checked")
+	if len(rule.Errs()) == 0 {
+		verifReach("accept")
+		verifCheck(verifNot(hasBrace), "non-sentence-accepted")
+	}
+}
